@@ -29,6 +29,7 @@ func (r *Replayer) Witnesses() int { return r.nwit }
 
 var reHarnessFn = regexp.MustCompile(`(?m)^func (Verif\w+)\(\)`)
 var rePkgClause = regexp.MustCompile(`(?m)^package (\w+)`)
+var rePoolVar = regexp.MustCompile(`(?m)^var (\w+) = sync\.Pool\{`)
 
 func (r *Replayer) build(dir string) (string, error) { return r.buildMode(dir, false) }
 
@@ -59,6 +60,19 @@ func (r *Replayer) buildMode(dir0 string, race bool) (string, error) {
 		}
 	}
 	sort.Strings(names)
+	var pools []string
+	if all, _ := filepath.Glob(filepath.Join(dir0, "*.go")); true {
+		for _, f := range all {
+			if strings.HasSuffix(f, "_test.go") {
+				continue
+			}
+			bs, _ := os.ReadFile(f)
+			for _, m := range rePoolVar.FindAllStringSubmatch(string(bs), -1) {
+				pools = append(pools, m[1])
+			}
+		}
+	}
+	sort.Strings(pools)
 	vrtPath := "vscratch/vrt"
 	modDir := r.c.Mod
 	if strings.HasPrefix(dir0, r.c.Repo) {
@@ -66,7 +80,11 @@ func (r *Replayer) buildMode(dir0 string, race bool) (string, error) {
 		modDir = r.c.Repo
 	}
 	var sb strings.Builder
-	sb.WriteString("//go:build verif\n\npackage " + pkg + "\n\nimport (\n\t\"fmt\"\n\t\"os\"\n\t\"runtime/debug\"\n\t\"testing\"\n\n\t\"" + vrtPath + "\"\n)\n\n")
+	sb.WriteString("//go:build verif\n\npackage " + pkg + "\n\nimport (\n\t\"fmt\"\n\t\"os\"\n\t\"reflect\"\n\t\"runtime/debug\"\n\t\"sync\"\n\t\"testing\"\n\n\t\"" + vrtPath + "\"\n)\n\nvar _ = reflect.ValueOf\n\nvar verifPools = map[string]*sync.Pool{\n")
+	for _, pn := range pools {
+		fmt.Fprintf(&sb, "\t%q: &%s,\n", pn, pn)
+	}
+	sb.WriteString("}\n\n")
 	sb.WriteString("var verifHarnesses = map[string]func(){\n")
 	for _, n := range names {
 		fmt.Fprintf(&sb, "\t%q: %s,\n", n, n)
@@ -90,6 +108,15 @@ func TestVerifReplay(t *testing.T) {
 	}
 	if pan != nil {
 		fmt.Printf("VRT-PANIC: %v\n", pan)
+	}
+	// what this request left in the package's sync.Pools for the next one
+	for name, pl := range verifPools {
+		if v := pl.Get(); v != nil {
+			rv := reflect.ValueOf(v)
+			if (rv.Kind() == reflect.Map || rv.Kind() == reflect.Slice) && rv.Len() > 0 {
+				fmt.Printf("VRT-POOL-DIRTY: %s hands out a non-empty %s after this request\n", name, rv.Type())
+			}
+		}
 	}
 	fmt.Println("VRT-DONE")
 }
@@ -152,6 +179,17 @@ func (r *Replayer) Replay(dir string, f sym.Finding) (bool, string) {
 	}
 	if f.Model == nil {
 		return false, "no model"
+	}
+	if f.Kind == "shared-write" && strings.Contains(f.Msg, "pool-state:") {
+		// no data race to observe: run the request once, then look at what the pool hands out next
+		out, err := r.run(dir, f.Harness, f.Model)
+		if err != nil {
+			return false, "replay build: " + firstLine(err.Error())
+		}
+		if i := strings.Index(out, "VRT-POOL-DIRTY:"); i >= 0 {
+			return true, firstLine(out[i:])
+		}
+		return false, "after the native request the pools hand out empty objects"
 	}
 	if f.Kind == "shared-write" {
 		// the per-request closure of the harness runs in four goroutines under the race detector
